@@ -148,9 +148,35 @@ type c14gen struct {
 	methodDecls map[string]*ast.FuncDecl
 	methodInfo  map[string]*types.Info
 	methodPkg   map[string]string
+	all         []*c14parsed
 }
 
-func genC14Locks(repo string) (string, string, error) {
+// c14parsed is one type-checked package of c14pkgs.
+type c14parsed struct {
+	path  string
+	files []*ast.File
+	names []string
+	info  *types.Info
+	name  string
+}
+
+var c14loaded = map[string]*c14gen{}
+
+// c14load lists, parses and type-checks the packages once per repository root (the access
+// table and the handed-results table - gen_c14handed.go - share the result).
+func c14load(repo string) (*c14gen, error) {
+	if g, ok := c14loaded[repo]; ok {
+		return g, nil
+	}
+	g, err := c14loadFresh(repo)
+	if err != nil {
+		return nil, err
+	}
+	c14loaded[repo] = g
+	return g, nil
+}
+
+func c14loadFresh(repo string) (*c14gen, error) {
 	g := &c14gen{fset: token.NewFileSet(), pkgs: map[string]*c14listPkg{},
 		methodDecls: map[string]*ast.FuncDecl{}, methodInfo: map[string]*types.Info{}, methodPkg: map[string]string{}}
 	args := []string{"list", "-json", "-deps", "-export", "-tags", "verif"}
@@ -161,20 +187,20 @@ func genC14Locks(repo string) (string, string, error) {
 	// and a scratch worktree without go.sum (it is git-ignored in /repo) still resolves offline.
 	tmp, err := os.MkdirTemp("", "c14locks")
 	if err != nil {
-		return "", "", err
+		return nil, err
 	}
 	defer os.RemoveAll(tmp)
 	gomod, err := os.ReadFile(filepath.Join(repo, "go.mod"))
 	if err != nil {
-		return "", "", err
+		return nil, err
 	}
 	if err := os.WriteFile(filepath.Join(tmp, "go.mod"), gomod, 0o644); err != nil {
-		return "", "", err
+		return nil, err
 	}
 	for _, cand := range []string{filepath.Join(repo, "go.sum"), "/repo/go.sum", "/verif/harness/go.sum.base"} {
 		if b, err := os.ReadFile(cand); err == nil {
 			if err := os.WriteFile(filepath.Join(tmp, "go.sum"), b, 0o644); err != nil {
-				return "", "", err
+				return nil, err
 			}
 			break
 		}
@@ -194,7 +220,7 @@ func genC14Locks(repo string) (string, string, error) {
 	cmd.Stderr = &stderr
 	out, err := cmd.Output()
 	if err != nil {
-		return "", "", fmt.Errorf("go list: %v: %s", err, stderr.String())
+		return nil, fmt.Errorf("go list: %v: %s", err, stderr.String())
 	}
 	dec := json.NewDecoder(bytes.NewReader(out))
 	for {
@@ -202,30 +228,23 @@ func genC14Locks(repo string) (string, string, error) {
 		if err := dec.Decode(&p); err == io.EOF {
 			break
 		} else if err != nil {
-			return "", "", err
+			return nil, err
 		}
 		pp := p
 		g.pkgs[p.ImportPath] = &pp
 	}
-	type parsed struct {
-		path  string
-		files []*ast.File
-		names []string
-		info  *types.Info
-		name  string
-	}
-	var all []*parsed
+	var all []*c14parsed
 	for _, suffix := range c14pkgs {
 		path := c14mod + suffix
 		lp := g.pkgs[path]
 		if lp == nil {
-			return "", "", fmt.Errorf("package %s not listed", path)
+			return nil, fmt.Errorf("package %s not listed", path)
 		}
-		pr := &parsed{path: path}
+		pr := &c14parsed{path: path}
 		for _, f := range lp.GoFiles {
 			af, err := parser.ParseFile(g.fset, filepath.Join(lp.Dir, f), nil, parser.ParseComments)
 			if err != nil {
-				return "", "", err
+				return nil, err
 			}
 			pr.files = append(pr.files, af)
 			pr.names = append(pr.names, f)
@@ -236,7 +255,7 @@ func genC14Locks(repo string) (string, string, error) {
 		conf.Importer.(*c14importer).base = importer.ForCompiler(g.fset, "gc", conf.Importer.(*c14importer).lookup)
 		tp, err := conf.Check(path, g.fset, pr.files, pr.info)
 		if err != nil && tp == nil {
-			return "", "", fmt.Errorf("type-check %s: %v", path, err)
+			return nil, fmt.Errorf("type-check %s: %v", path, err)
 		}
 		pr.name = tp.Name()
 		all = append(all, pr)
@@ -254,6 +273,16 @@ func genC14Locks(repo string) (string, string, error) {
 			}
 		}
 	}
+	g.all = all
+	return g, nil
+}
+
+func genC14Locks(repo string) (string, string, error) {
+	g, err := c14load(repo)
+	if err != nil {
+		return "", "", err
+	}
+	all := g.all
 	for _, pr := range all {
 		g.info = pr.info
 		g.pkgName = pr.name
